@@ -23,7 +23,7 @@ RULE = ("programs = generated XMILE documents (3-8 aux variables, equations over
         "equation has >= 2 operators of different precedence or a call with a compound argument; distinct by document text")
 ASSUMPTIONS = [
     "XMILE semantics are taken from the XMILE 1.0 operator table: ^, unary -, * / MOD, + -, comparisons, NOT, AND, OR; left-to-right within a level",
-    "constructs on which tools disagree are not generated unparenthesised: chained ^, chained comparisons, MOD/INT of negatives, ROUND at .5",
+    "constructs on which tools disagree are not generated unparenthesised: chained ^, chained comparisons, MOD of negatives, ROUND at .5",
     "the supported boolean skeleton is cmp (AND|OR cmp)* with NOT(cmp) (the grammar has no parenthesised boolean operands)",
     "a WARNING (or higher) log record during compilation counts as loud, as the generator documents for unknown built-ins",
     "STEP(h, t0) = h for t >= t0 (XMILE definition)",
@@ -307,6 +307,9 @@ def doc_strategy(max_depth=3, mutants=False):
                 sub.map(lambda x: ["neg", x]),
                 st.tuples(st.sampled_from(["abs", "sqrt", "exp", "ln", "log10", "int", "round", "sin", "cos", "tan", "arctan", "percent"]), sub)
                 .map(lambda x: ["call", x[0], [x[1]]]),
+                # INT of differences, negations and quotients: negative non-integer arguments are ordinary
+                st.tuples(st.sampled_from(["-", "/", "-"]), sub, sub).map(lambda x: ["call", "int", [["bin", x[0], x[1], x[2]]]]),
+                sub.map(lambda x: ["call", "int", [["neg", x]]]),
                 st.tuples(st.sampled_from(["min", "max", "step"]), sub, sub).map(lambda x: ["call", x[0], [x[1], x[2]]]),
                 st.tuples(sub, sub).map(lambda x: ["call", "safediv", [x[0], x[1]]]),
                 st.tuples(sub, sub, sub).map(lambda x: ["call", "safediv", [x[0], x[1], x[2]]]),
@@ -377,7 +380,10 @@ def _strip_ref(t, vid):
 
 def _body(ctx):
     def body(case):
+        E.NOTES.clear()
         info, vs = check_case(case)
+        for k_, n_ in E.NOTES.items():
+            ctx.extra["reference_met:" + k_] += n_
         ctx.extra["programs"] += info["programs"]
         ctx.extra["disagreements_checked"] += info["comparisons"]
         ctx.extra["mutants_loud"] += info["loud"]
